@@ -256,6 +256,21 @@ struct ConnRec {
     released: bool,
 }
 
+/// many thousand short-lived loopback connections per second can exhaust the ephemeral ports for a moment
+fn connect_retry(addr: std::net::SocketAddr) -> StdTcpStream {
+    let mut tries = 0;
+    loop {
+        match StdTcpStream::connect(addr) {
+            Ok(c) => return c,
+            Err(e) if tries < 600 && matches!(e.kind(), io::ErrorKind::AddrNotAvailable | io::ErrorKind::AddrInUse) => {
+                tries += 1;
+                std::thread::sleep(Duration::from_millis(50));
+            }
+            Err(e) => panic!("connect: {e}"),
+        }
+    }
+}
+
 fn fd_closed(fd: RawFd) -> bool {
     // SAFETY: F_GETFD has no side effect
     unsafe { libc::fcntl(fd, libc::F_GETFD) == -1 }
@@ -333,7 +348,7 @@ async fn drive(cfg: Cfg, ops: Vec<Op>, listener: &TcpListener) -> String {
         match op {
             Op::Push(tok, cid) => {
                 if let Some(h) = accept.as_ref() {
-                    let client = StdTcpStream::connect(addr).expect("connect");
+                    let client = connect_retry(addr);
                     let (server, _) = listener.accept().expect("accept");
                     client.set_nonblocking(true).unwrap();
                     server.set_nonblocking(true).unwrap();
